@@ -22,6 +22,8 @@ From RX.Spec Require Cst CstText CstEnt.
 From RX.Proofs Require Import CstMain CstTextMain CstEntMain CstEntRejSem CstEntRejTrace CstEntRejMain.
 From RX.Spec Require CstFull CstFullS4 CstFullS6.
 From RX.Proofs Require CstNsView CstFullS6Main CstFullRejSem CstFullRejTrace CstFullRejDoc CstFullRejMain.
+From RX.Spec Require CstFullS11.
+From RX.Proofs Require CstFullS11Main CstFullRejS11Sem CstFullRejS11Doc CstFullRejS11Main CstFullRejS11NsMain NsRejDefs NsRejBuild.
 Open Scope N_scope.
 
 (* ---- Proofs/BudgetMain.v ---- *)
@@ -119,8 +121,50 @@ Print Assumptions C09_budget_exceeded_rejected_ent.
 
 End G3.
 
-(* ---- Proofs/CstFullRejMain.v ---- *)
+(* ---- Proofs/CstFullRejS11Main.v ---- *)
 Module G4.
+Import RX.Spec.CstFull. Import RX.Spec.CstFullS4. Import RX.Spec.CstFullS6. Import RX.Spec.CstFullS11. Import RX.Proofs.CstNsView. Import RX.Proofs.CstFullS11Main. Import RX.Proofs.CstFullRejSem. Import RX.Proofs.CstFullRejS11Sem. Import RX.Proofs.CstFullRejTrace. Import RX.Proofs.CstFullRejS11Doc. Import RX.Proofs.CstFullRejMain. Import RX.Proofs.CstFullRejS11Main.
+Theorem C09_limits_decide_full_s11 :
+  forall (d : S6.doc) (opt : options) (cT : CstFull.doc bpieces) (tr : list Detector.lop),
+  wf_syntax11 d = true -> ginline6 d = Some (cT, tr) ->
+  provisos_item (d_root cT) = true ->
+  forallb (ns_ok []) (den bmeaning (d_root cT)) = true ->
+  (S6.has_dtd d = true -> allow_dtd opt = true) ->
+  N.of_nat (length (usem6 d cT)) < nodes_limit opt ->
+  N.of_nat (length (usem6 d cT)) < u32_max ->
+  N.of_nat (vattrs (usem6 d cT)) < u32_max ->
+  CstFull.distinct_decls_le bmeaning cT (N.to_nat 65535) ->
+  1 + N.of_nat (CstFull.ns_cost bmeaning cT) <= u32_max ->
+  (Detector.within_limits 10 255 0 0 tr = true ->
+     exists x, parse (S6.render d) opt = Ok x /\ view (S6.render d) x = Some (usem6 d cT) /\
+               S11.wf_doc d = true /\ S6.sem d = usem6 d cT) /\
+  (Detector.within_limits 10 255 0 0 tr = false ->
+     exists pos, parse (S6.render d) opt = Err (EntityReferenceLoop pos)) /\
+  ((exists x, parse (S6.render d) opt = Ok x) <-> Detector.within_limits 10 255 0 0 tr = true) /\
+  ((exists pos, parse (S6.render d) opt = Err (EntityReferenceLoop pos)) <-> Detector.within_limits 10 255 0 0 tr = false).
+Proof. exact limits_decide_full_s11. Qed.
+Print Assumptions C09_limits_decide_full_s11.
+
+Theorem C09_cycle_rejected_full_s11 :
+  forall (d : S6.doc) (opt : options) (cT : CstFull.doc bpieces) (tr : list Detector.lop),
+  wf_syntax11 d = true -> ginline6 d = Some (cT, tr) ->
+  provisos_item (d_root cT) = true ->
+  forallb (ns_ok []) (den bmeaning (d_root cT)) = true ->
+  (S6.has_dtd d = true -> allow_dtd opt = true) ->
+  N.of_nat (length (usem6 d cT)) < nodes_limit opt ->
+  N.of_nat (length (usem6 d cT)) < u32_max ->
+  N.of_nat (vattrs (usem6 d cT)) < u32_max ->
+  CstFull.distinct_decls_le bmeaning cT (N.to_nat 65535) ->
+  1 + N.of_nat (CstFull.ns_cost bmeaning cT) <= u32_max ->
+  cyclic_doc6 d ->
+  exists pos, parse (S6.render d) opt = Err (EntityReferenceLoop pos).
+Proof. exact cycle_rejected_full_s11. Qed.
+Print Assumptions C09_cycle_rejected_full_s11.
+
+End G4.
+
+(* ---- Proofs/CstFullRejMain.v ---- *)
+Module G5.
 Import RX.Spec.CstFull. Import RX.Spec.CstFullS4. Import RX.Spec.CstFullS6. Import RX.Proofs.CstNsView. Import RX.Proofs.CstFullS6Main. Import RX.Proofs.CstFullRejSem. Import RX.Proofs.CstFullRejTrace. Import RX.Proofs.CstFullRejDoc. Import RX.Proofs.CstFullRejMain.
 Theorem C09_limits_decide_full_s6 :
   forall (d : S6.doc) (opt : options) (cT : CstFull.doc bpieces) (tr : list Detector.lop),
@@ -191,7 +235,7 @@ Theorem C09_budget_exceeded_rejected_full_s6 :
 Proof. exact budget_exceeded_rejected_full_s6. Qed.
 Print Assumptions C09_budget_exceeded_rejected_full_s6.
 
-End G4.
+End G5.
 
 (* ---- Proofs/DetectorProofs.v ---- *)
 Theorem C09_enter_agrees_model :
